@@ -32,6 +32,8 @@ def run(rep, tier):
              "the key tested, inserted, passed to the backend and stored in the owner is the same value; the owner's trampoline is the backend's result")
     rep.rule("R-C13-unregister", "unregister_callback: returns silently when not CREATED (no backend call); otherwise backend unregistration of that key and erasure of exactly that key under the lock after an existence abort check")
     rep.rule("R-C13-refuse", "in each bundled backend every returning path of impl_register_callback yields a non-null entry point (a check dominates the return)")
+    rep.rule("R-C13-keyset", "the registered-key set is changed only by register_callback (adds the key it hands to the backend) and unregister_callback (removes the key it releases in the backend), or by helpers reachable "
+             "only from them: any other writer (e.g. a wholesale clear) makes the key set disagree with the live owners and the backend's entry points")
     backends = ["model32", "noop"] if tier == "quick" else ["model32", "model32gi", "noop", "dylib", "noop_tls", "dylib_tls"]
     if tier == "quick":
         backends.append("dylib")
@@ -56,6 +58,18 @@ def run(rep, tier):
                     rep.violation("R-C13-unique", CB, "the constructor taking a registration is not private", r["loc"], inst)
                 else:
                     rep.ok("R-C13-unique", CB, "copy deleted; registration constructor private", inst)
+        SBN = "rlbox::rlbox_sandbox"
+        allowed = {SBN + "::register_callback", SBN + "::unregister_callback"}
+        muts = owners.member_mutations(db, "callback_keys")
+        rep.require(len({m[0]["n"] for m in muts}) >= 2, "%s: fewer than two functions change callback_keys (anchor lost)" % db.label)
+        for fn, what, loc in muts:
+            inst = "%s | %s" % (db.label, fn["full"][:150])
+            if fn["n"] in allowed or owners.reached_only_from(db, fn["n"], allowed):
+                rep.ok("R-C13-keyset", site(fn), "callback_keys.%s" % what, inst)
+                n["keyset"] = n.get("keyset", 0) + 1
+            else:
+                rep.violation("R-C13-keyset", site(fn) + " [callback_keys]", "%s changes the registered-key set (callback_keys: %s) although it is neither register_callback nor unregister_callback: "
+                              "owners that are still live and the backend's entry points no longer agree with the key set" % (fn["n"].split("::")[-1], what), loc, inst)
         for f in db.functions:
             if f["dep"] or "body" not in f:
                 continue
